@@ -14,8 +14,14 @@ if [ ! -f "$STAMP" ] || [ bigdecimal.rs -nt "$STAMP" ] || [ phf.rs -nt "$STAMP" 
   rustc --edition 2021 -A warnings --crate-type proc-macro --crate-name thiserror thiserror.rs -o build/libthiserror.so
   touch "$STAMP"
 fi
-sed "s#/repo/#$REPO/#g" main.rs > build/main.rs
-rustc --edition 2021 -A warnings -O build/main.rs -L build \
+# one binary per source tree (scratch worktrees of seeded changes must not share the binary of /repo),
+# built under a private name and moved into place atomically so that concurrent checks do not race
+if [ "$REPO" = "/repo" ]; then OUT=build/edb_lex; else OUT=build/edb_lex-$(printf %s "$REPO" | md5sum | cut -c1-10); fi
+TMP=build/tmp_$$
+sed "s#/repo/#$REPO/#g" main.rs > $TMP.rs
+rustc --edition 2021 -A warnings -O $TMP.rs --crate-name edb_lex -L build \
   --extern bigdecimal=build/libbigdecimal.rlib --extern memchr=build/libmemchr.rlib \
   --extern phf=build/libphf.rlib --extern unicode_width=build/libunicode_width.rlib \
-  --extern thiserror=build/libthiserror.so -o build/edb_lex
+  --extern thiserror=build/libthiserror.so -o $TMP.bin
+mv -f $TMP.bin $OUT
+rm -f $TMP.rs
